@@ -285,6 +285,10 @@ namespace bloch::runtime {
         int m_destructorDepth = 0;  // user destructor bodies currently running (they nest)
         std::unordered_map<const Expression*, std::vector<int>> m_measurements;
         std::unordered_map<std::string, std::unordered_map<std::string, int>> m_trackedCounts;
+        // table names in the order their first outcome was recorded (the order they are shown in:
+        // it follows the execution, not the spelling of the names)
+        std::vector<std::string> m_trackedOrder;
+        void countTracked(const std::string& table, const std::string& outcome);
         bool m_echoEnabled = true;
         bool m_warnOnExit = true;
         bool m_executed = false;  // single-use guard
@@ -393,6 +397,7 @@ namespace bloch::runtime {
         void setEcho(bool enabled) { m_echoEnabled = enabled; }
         void setWarnOnExit(bool enabled) { m_warnOnExit = enabled; }
         const auto& trackedCounts() const { return m_trackedCounts; }
+        const std::vector<std::string>& trackedOrder() const { return m_trackedOrder; }
         // Test helper to observe whether the GC worker was started for this run.
         bool gcThreadStartedForTest() const { return m_gcThreadStarted; }
 
